@@ -293,6 +293,7 @@ class MemoryPersister : public Persister
 {
 	using Store = std::map<unsigned, const f8String>;
 	Store _store;
+	mutable f8_spin_lock _spl; // the range get (inbound thread) is not covered by the session's lock and can overlap with put
 
 public:
 	/// Ctor.
@@ -398,6 +399,7 @@ class FilePersister : public Persister
 
 	using Index = std::map<uint32_t, Prec>;
 	Index _index;
+	mutable f8_spin_lock _spl; // the range get (inbound thread) is not covered by the session's lock and can overlap with put
 
 public:
 	/// Ctor.
